@@ -5,6 +5,7 @@ import Heathcliff.Proofs.C01P
 import Heathcliff.Proofs.C01O
 import Heathcliff.Proofs.C01J
 import Heathcliff.Proofs.C01V
+import Heathcliff.Proofs.C01X
 import Heathcliff.Proofs.GenScalingSpec
 
 /- Property theorems only (statements verbatim; proofs are the helper lemmas of Heathcliff/Proofs). -/
@@ -502,5 +503,37 @@ theorem trimPlain_padPlain_empty : type_of% @HC.trimPlain_padPlain_empty := @HC.
 theorem drv_bfv_encrypt_zero_decrypt : type_of% @HC.drv_bfv_encrypt_zero_decrypt := @HC.drv_bfv_encrypt_zero_decrypt
 theorem drv_bgv_encrypt_zero_decrypt : type_of% @HC.drv_bgv_encrypt_zero_decrypt := @HC.drv_bgv_encrypt_zero_decrypt
 theorem drv_ckks_encrypt_zero_decrypt : type_of% @HC.drv_ckks_encrypt_zero_decrypt := @HC.drv_ckks_encrypt_zero_decrypt
+
+/-! ### the SEED-COMPRESSED path end to end (Proofs/C01X; concrete instance with the driver's rejection sampler: Proofs/C01XW) -/
+
+/-- X1: with a saved seed, polynomial 1 of the symmetric encryption of zero IS the mask the seed expands to (either form) -/
+theorem encryptZeroSym_seeded_shape : type_of% @HC.encryptZeroSym_seeded_shape := @HC.encryptZeroSym_seeded_shape
+theorem encryptZeroInternal_seeded_shape : type_of% @HC.encryptZeroInternal_seeded_shape := @HC.encryptZeroInternal_seeded_shape
+
+/-- … the plaintext layers touch polynomial 0 only -/
+theorem bfvEncrypt_seeded_shape : type_of% @HC.bfvEncrypt_seeded_shape := @HC.bfvEncrypt_seeded_shape
+theorem bgvEncrypt_seeded_shape : type_of% @HC.bgvEncrypt_seeded_shape := @HC.bgvEncrypt_seeded_shape
+theorem ckksEncrypt_seeded_shape : type_of% @HC.ckksEncrypt_seeded_shape := @HC.ckksEncrypt_seeded_shape
+
+/-- X2: storing (c0, seed) and expanding restores the ciphertext whenever the seed expands to its polynomial 1 (`SeedExpands`) -/
+theorem expandSeed_of_shape : type_of% @HC.expandSeed_of_shape := @HC.expandSeed_of_shape
+
+/-- X2, END TO END, SEED-COMPRESSED: the driver's pipeline for `mode = seed` — encrypt (expanded view), store (c0, seed), `expand_seed`,
+    decrypt — returns the plaintext (BFV, BGV; CKKS: M + ν over the integers) -/
+theorem drv_bfv_encrypt_decrypt_seeded {n t : Nat} {kqs : List Nat} {kl : Level} {sk : Array Int} {pk0 pk1 : RnsPoly}
+    {lqs : List Nat} {l : Level} (hc : DrvCtx .bfv n t kqs kl sk pk0 pk1) (hl : Drv.Sch.mkLevel .bfv n lqs t = .ok l) (ht : t ≠ 0)
+    {a : RnsPoly} {e : Array Int} (ha : RnsCanon l a) (hes : e.size = n) (he : ∀ p, p < n → (e.getD p 0).natAbs ≤ 21)
+    (hs : seedSaved l true = true) {U : Rng.Uniform} {xof : Rng.Xof} {seed : Rng.Seed} (hx : SeedExpands U xof l seed a)
+    {plain : Poly} (hp : plain.size ≤ n) (hpm : ∀ i, i < plain.size → plain.getD i 0 < t) (hok : FreshEncOK l 21) :
+    ∃ cdp ct, Drv.C01E.bfvConsts l lqs t = .ok cdp ∧
+      bfvEncrypt l cdp (Spec.prodL lqs % t) ((t + 1) / 2) (.sym sk a (rnsOfInt l e) true) plain = .ok ct ∧
+      expandSeed U xof l (ct.toSeeded seed) = .ok ct ∧
+      bfvDecrypt l sk ct = .ok (trimPlain (padPlain n plain)) :=
+  HC.drv_bfv_encrypt_decrypt_seeded hc hl ht ha hes he hs hx hp hpm hok
+theorem drv_bgv_encrypt_decrypt_seeded : type_of% @HC.drv_bgv_encrypt_decrypt_seeded := @HC.drv_bgv_encrypt_decrypt_seeded
+theorem drv_ckks_encrypt_decrypt_seeded : type_of% @HC.drv_ckks_encrypt_decrypt_seeded := @HC.drv_ckks_encrypt_decrypt_seeded
+
+/-- when flag + seed do not fit into one polynomial the seeded call IS the unseeded one -/
+theorem encryptZeroSym_seed_fallback : type_of% @HC.encryptZeroSym_seed_fallback := @HC.encryptZeroSym_seed_fallback
 
 end HC.C01
